@@ -1450,3 +1450,26 @@ def outcome_with(stores=None, calls=None, result=True, carries=None):
             parts.append(result_text(p))
         return "; ".join(parts) if parts else None
     return f
+
+
+def baseline_body(qualname):
+    """Source of a function's body as confirmed on the baseline tree (sa/baseline_src.json), docstring dropped."""
+    from . import canon
+    store = canon.load_baseline_src() or {}
+    for mod, funcs in store.items():
+        if qualname in funcs:
+            text = funcs[qualname][0]["text"]
+            tree = ast.parse("if True:\n" + text if text[:1] in (" ", "\t") else text)
+            f = tree.body[0].body[0] if text[:1] in (" ", "\t") else tree.body[0]
+            body = f.body
+            if body and isinstance(body[0], ast.Expr) and isinstance(body[0].value, ast.Constant) and isinstance(body[0].value.value, str):
+                body = body[1:]
+            return "\n".join(ast.unparse(x) for x in body)
+    raise AnalysisError("E11", qualname, "no confirmed baseline source for this function")
+
+
+def check_baseline(ctx, rule, func, what, construct=None, **kw):
+    """The function's guarded table (projected by `outcome`) is the one confirmed on the baseline tree - the clause
+    `what` was established by reading that table.  Spelling does not matter; a different outcome for some consistent
+    atom assignment does."""
+    return check_ref(ctx, rule, func, what, baseline_body(func.qualname), construct or ("%s table" % func.qualname.split("dateutil.")[-1]), **kw)
